@@ -727,4 +727,46 @@ theorem modeShiftTrace_refines (h : HeapM) (d : Int) (p : Nat) (v : ValidMode h 
       simp only [hs, setMode]
       rw [hcl.1]
 
+/-! ### the variant of `Shift` without the clone: same result, damaged argument -/
+
+theorem readCell_setCell_ne (h : Heap) (a b : Nat) (f : Seg → Seg) (hne : b ≠ a) :
+    readCell (setCell h a f) b = readCell h b := by
+  simp only [readCell, setCell, modifyNth_getElem?_ne _ _ _ _ hne]
+
+theorem readCell_setCell_same (h : Heap) (a : Nat) (f : Seg → Seg) (ha : a < h.cells.length) :
+    readCell (setCell h a f) a = f (readCell h a) := by
+  simp only [readCell, setCell, modifyNth_getElem?]
+  rw [List.getElem?_eq_getElem ha]
+  rfl
+
+/-- The variant of `Shift` without the clone returns the right list all the same (when the first pointer does not
+occur again in the list): comparing RESULTS cannot find it. -/
+theorem shiftTrace_noclone_result (h : Heap) (d l : Int) (sl : Slice) (first : Nat) (rest : List Nat)
+    (hd : d > 0) (hs : readSlice h sl = first :: rest) (hf : first < h.cells.length)
+    (hcell : readCell h first = ⟨0, some l⟩) (hnot : first ∉ rest) :
+    ∃ hl, (shiftTrace false h d sl).1.getLast? = some hl ∧
+      readSegs hl (shiftTrace false h d sl).2 = shift d (readSegs h sl) := by
+  have hne : d ≠ 0 := by omega
+  have hlen := readSlice_length_le h sl
+  rw [hs] at hlen
+  unfold shiftTrace
+  simp only [hne, if_false, hs, hd, if_true, hcell, Bool.false_eq_true]
+  refine ⟨_, getLast?_cons_of_getLast? _ _ _ (getLast?_cons_of_getLast? _ _ _ (buildOut_last _ _ _)), ?_⟩
+  simp only [buildOut_id]
+  have := readSegs_allocArr_new (setCell h first (fun s => ⟨s.mag, some (l + d)⟩)) (first :: rest) sl.len
+    (by simpa using hlen)
+  simp only [allocArr] at this ⊢
+  simp only [setCell] at this ⊢
+  rw [this]
+  simp only [shift, hne, if_false, readSegs, hs, List.map_cons, hd, if_true, hcell]
+  congr 1
+  · have := readCell_setCell_same h first (fun s => ⟨s.mag, some (l + d)⟩) hf
+    simp only [setCell, hcell] at this
+    exact this
+  · apply List.map_congr_left
+    intro b hb
+    have hbne : b ≠ first := fun e => hnot (e ▸ hb)
+    have := readCell_setCell_ne h first b (fun s => ⟨s.mag, some (l + d)⟩) hbne
+    simpa [setCell] using this
+
 end ScVerif.C18
